@@ -1,6 +1,8 @@
 package database
 
 import (
+	"math"
+
 	"github.com/Vedant9500/WTF/internal/constants"
 	"github.com/Vedant9500/WTF/internal/embedding"
 )
@@ -70,6 +72,37 @@ func VerifHarness_C19_Absent() {
 	if len(a) == len(b) {
 		for k := range a {
 			verifAssert(a[k].Command == b[k].Command && c03SameFloat(a[k].Score, b[k].Score), "C19: an index without vectors for the query changes nothing")
+		}
+	}
+	verifReach("boosted")
+}
+
+// special values in the embedding files (NaN, infinities, huge magnitudes): the stage must
+// still only raise scores, by a bounded factor, and keep the list ordered
+func VerifHarness_C19_StageSpecial() {
+	db := c01DB(3)
+	special := []float32{1, -1, 0, float32(math.NaN()), float32(math.Inf(1)), 3e38, 0.5}
+	pick := func(name string) float32 { return special[verifIntRange(name, 0, len(special)-1)] }
+	idx := &embedding.Index{Dimension: 1, WordVectors: map[string][]float32{"aa": {pick("word")}, "bb": {pick("word2")}}}
+	for i := 0; i < 3; i++ {
+		idx.CmdEmbeddings = append(idx.CmdEmbeddings, []float32{pick("cmd")})
+	}
+	db.embeddingIndex = idx
+	res := []SearchResult{{Command: &db.Commands[0], Score: 5}, {Command: &db.Commands[1], Score: 5}, {Command: &db.Commands[2], Score: 2}}
+	before := append([]SearchResult(nil), res...)
+	q := []string{"aa", "aa bb"}[verifIntRange("query", 0, 1)]
+	out := db.applySemanticBoost(res, q)
+	verifAssert(len(out) == len(before), "C19: the semantic stage keeps the result list's length")
+	for k := range out {
+		verifAssert(!math.IsNaN(out[k].Score), "C19: the semantic stage never produces a NaN score")
+		if k > 0 {
+			verifAssert(out[k-1].Score >= out[k].Score, "C19: the semantic stage keeps the result list ordered")
+		}
+		for _, b := range before {
+			if b.Command == out[k].Command {
+				verifAssert(out[k].Score >= b.Score, "C19: the semantic stage can only raise scores")
+				verifAssert(out[k].Score <= b.Score*(1.0+constants.SemanticAlpha)*1.0000001, "C19: the semantic stage raises scores by a bounded factor")
+			}
 		}
 	}
 	verifReach("boosted")
